@@ -63,11 +63,12 @@ static char n_f[] = "f";
 void
 harness(void)
 {
-	IN(bool, in_fn0); IN(bool, in_fn1); IN(bool, in_fn2); IN(unsigned, in_bq); IN(u64, in_len0); IN(u64, in_len1); IN(u64, in_len2);
+	IN(bool, in_fn0); IN(bool, in_fn1); IN(bool, in_fn2); IN(unsigned, in_bq); IN(bool, in_z0); IN(bool, in_z1); IN(bool, in_z2);
 	static struct scope *am_funcscope; static char *am_name;
 	const unsigned nsuf = V_N1 + V_N2;
 	bool isfn[NSUF] = {in_fn0, in_fn1, in_fn2};       /* suffix j (source order) is a function declarator, else an array declarator */
-	u64 len[NSUF] = {in_len0, in_len1, in_len2};
+	/* lengths 3, 5, 7 tell the array derivations apart (64-bit size arithmetic on symbolic lengths is DECL.arrsize's business) */
+	u64 len[NSUF] = {in_z0 ? 0 : 3, in_z1 ? 0 : 5, in_z2 ? 0 : 7};
 	unsigned seq[6], slot[6], q[6], n = 0, k = 0, j, nfn = 0;
 	bool wellformed = true, zerolen = false;
 	struct qualtype base, r;
@@ -75,10 +76,8 @@ harness(void)
 
 	__CPROVER_assume((in_bq & ~(QUALCONST | QUALVOLATILE)) == 0);
 	for (j = 0; j < NSUF; j++) {
-#ifdef V_ARRZERO
-		__CPROVER_assume(len[j] <= 1000);
-#else
-		__CPROVER_assume(len[j] >= 1 && len[j] <= 1000);
+#ifndef V_ARRZERO
+		__CPROVER_assume(len[j] != 0);
 #endif
 		e_len[j].kind = EXPRCONST; e_len[j].type = &t_len; e_len[j].u.constant.u = len[j];
 		d_par[j].type = &typeint; d_par[j].name = 0; d_par[j].kind = DECLOBJECT; d_par[j].next = 0;
@@ -157,6 +156,6 @@ harness(void)
 	__CPROVER_assert((am_funcscope != 0) == (n > 0 && seq[0] == D_FN), "6.9.1p2: the prototype scope of the function declarator that declares the IDENTIFIER (and only that) is kept for a function body");
 	__CPROVER_assert(g_nmk == nfn && g_ndel == nfn - (n > 0 && seq[0] == D_FN ? 1 : 0), "6.2.1p4: every other prototype scope ends with its declarator");
 #ifdef VERIF_CANARY
-	__CPROVER_assert(!(in_bq == QUALCONST && in_len0 == 3 && in_len1 == 5), "CANARY");
+	__CPROVER_assert(!(in_bq == QUALCONST && !in_fn0), "CANARY");
 #endif
 }
